@@ -207,7 +207,7 @@ def gen_items(run):
     corp = corpus.load()
     rng = run.rng
     cpus = [c for c in sorted(corp) if c not in c12.SKIP_CPUS]
-    nsingle, nmulti = (120, 130) if quick else (2000, 2000)
+    nsingle, nmulti = (240, 360) if quick else (2000, 2000)
     progs = []
     for i in range(nsingle):
         cpu = cpus[i % len(cpus)]
@@ -227,7 +227,7 @@ def gen_items(run):
     # two further program kinds (data-only, so they assemble on every CPU): scoped/shadowed labels referenced inside
     # and outside .scope/.func blocks (resolution depends on per-pass scope bookkeeping), and contiguous data runs that
     # cross a 64 KiB boundary at a non-16-aligned distance (record flushing in the hex/srec writers vs the bin image)
-    nextra = 24 if quick else 300
+    nextra = 48 if quick else 300
     byte_cpus = ["msp430", "z80", "6502", "68000", "8051", "stm8", "6809", "arm", "mips", "riscv"]
     for i in range(nextra):
         cpu = byte_cpus[i % len(byte_cpus)]
